@@ -188,6 +188,28 @@ Proof. exact ast_steps_concurrency_bound. Qed.
 Print Assumptions ants_steps_concurrency_bound.
 
 (* ------------------------------------------------------------------------------------------------
+   (D21) The other two clauses of C08 that do not involve time, on the step model, for every pool size,
+   programs, schedules, select choices, both modes:
+   ants_steps_busy_only_if_full: a Send returns the discard task only from its len(taskChan) == cap test,
+   with discardOnBusy set and exactly n tasks in the task channel;
+   ants_steps_channels_bounded: taskChan and innerCallbackChan never hold more than n entries (so "full" is
+   "length = n").  The timing bound (K1) is not restated on the step model. *)
+From Got Require Import AntsStepsDecide AntsStepsOutcome.
+
+Theorem ants_steps_busy_only_if_full :
+  forall md n s tid hint,
+    snd (fst (ast_step md n s tid hint)) = AstEvRet AstRDiscard ->
+    exists o, ast_pc_of s tid = Some (AstSendLen o) /\ aso_discard o = true /\ length (ast_tchan s) = n.
+Proof. exact ast_steps_busy_only_if_full. Qed.
+Print Assumptions ants_steps_busy_only_if_full.
+
+Theorem ants_steps_channels_bounded :
+  forall md n progs s,
+    ast_reach md n progs s -> (length (ast_tchan s) <= n)%nat /\ (length (ast_ichan s) <= n)%nat.
+Proof. exact ast_steps_channels_bounded. Qed.
+Print Assumptions ants_steps_channels_bounded.
+
+(* ------------------------------------------------------------------------------------------------
    "A pool created with size N", "timeout T and retry count R": which N, T, R a NewPool / Send call
    obtains (models/AntsOptions.v: pool_option.go and task_option.go transcribed as functions of the
    literal option list; several pools in one process).  Proofs in proofs/AntsOptionsProofs.v. *)
